@@ -22,14 +22,22 @@ ASPECT = "C07"
 
 def shards(tier):
     if tier == "quick":
-        return [{"label": "hist%d" % i, "n": 2200} for i in range(14)] + [{"label": "giant", "n": 60, "giant": True}]
-    return [{"label": "hist%d" % i, "n": 60000} for i in range(16)] + [{"label": "giant", "n": 1500, "giant": True}]
+        return [{"label": "hist%d" % i, "n": 2200} for i in range(14)] + [{"label": "giant", "n": 60, "giant": True},
+                                                                               {"label": "medium", "n": 40, "medium": True}]
+    return [{"label": "hist%d" % i, "n": 60000} for i in range(16)] + [{"label": "giant", "n": 1500, "giant": True}] + \
+           [{"label": "medium%d" % i, "n": 500, "medium": True} for i in range(3)]
 
 
 def run_shard(ctx):
     if ctx.shard.get("giant"):
         for case in histories.giant_append_cases(ctx.rng, ctx.shard["n"]):
             histories.giant_append(ctx, ASPECT, case)
+        return
+    if ctx.shard.get("medium"):
+        from .c06 import MEDIUM_PROFILE
+
+        histories.run_histories(ctx, ASPECT, ctx.shard["n"], min_steps=6, max_steps=14, profile=MEDIUM_PROFILE)
+        ctx.count("class:entries_of_more_than_1000_row_ids", ctx.shard["n"])
         return
     histories.run_histories(ctx, ASPECT, ctx.shard["n"])
 
